@@ -149,6 +149,17 @@ func (mr *msgReader) putFlateReader() {
 
 func (mr *msgReader) close() {
 	mr.c.readMu.forceLock()
+	if mr.reading {
+		// We are underneath msgReader.Read: a close frame arrived in the middle
+		// of the message. The flate reader, its bufio.Reader and the dictionary
+		// are in use further up the stack, Read releases them on its way out.
+		mr.closePending = true
+		return
+	}
+	mr.release()
+}
+
+func (mr *msgReader) release() {
 	mr.putFlateReader()
 	if mr.dict != nil {
 		mr.dict.close()
@@ -382,6 +393,10 @@ type msgReader struct {
 	payloadLength int64
 	maskKey       uint32
 
+	// Guarded by readMu.
+	reading      bool // a Read is in progress
+	closePending bool // close was called underneath that Read
+
 	// util.ReaderFunc(mr.Read) to avoid continuous allocations.
 	readFunc util.ReaderFunc
 }
@@ -410,6 +425,15 @@ func (mr *msgReader) Read(p []byte) (n int, err error) {
 		return 0, fmt.Errorf("failed to read: %w", err)
 	}
 	defer mr.c.readMu.unlock()
+
+	mr.reading = true
+	defer func() {
+		mr.reading = false
+		if mr.closePending {
+			mr.closePending = false
+			mr.release()
+		}
+	}()
 
 	n, err = mr.limitReader.Read(p)
 	if mr.flate && mr.flateContextTakeover() {
